@@ -208,11 +208,13 @@ CHECKS["C07"] = {
           "list lacks that window get no compound match and exact hits glued to a letter/digit are rejected. The three defects "
           "found on the pinned tree are kept as kernel-evaluated before-fix witnesses on the guard-less function and as positive "
           "in-place theorems on the current one. The model is run against the real functions on the exhaustive by-construction "
-          "identifier family, the near-miss family, the corpus of repaired inputs, random and hostile inputs; an independent "
+          "identifier family, dotted paths of 2..4 segments whose segments start / end with '-' or '_' and mix separator kinds, the "
+          "near-miss family (letters and digits glued to the term), the corpus of repaired inputs, random and hostile inputs; an independent "
           "by-construction oracle judges find_compound_variants, find_enhanced_matches, scan_repository+apply_plan and the CLI, and "
           "names the repaired class if an old behaviour returns.",
   "design_ref": "DESIGN.md section 4, C07",
-  "technique": "Lean 4 proof (induction over token lists and over the guard's token walk, on top of the C18 tokenizer lemmas) + kernel-evaluated witnesses + differential correspondence + by-construction locality oracle (in-process and CLI)",
+  "technique": "generated flag for the extractor's dot splitting (translate/extractor_shape.py; both shapes modelled, witness on the "
+               "untrimmed one, in-place theorem on the trimmed one) + Lean 4 proof (induction over token lists and over the guard's token walk, on top of the C18 tokenizer lemmas) + kernel-evaluated witnesses + differential correspondence + by-construction locality oracle (in-process and CLI)",
   "note": TB + "camelCase locality, kebab/train/dot multiplicities, the hump+underscore shapes and the Title/dot paths are covered by "
           "kernel-evaluated examples and the differential check only; identifier regex modelled for ASCII content; the enhanced op "
           "uses the style rows of the variant table (plural / as-typed rows only end-to-end); the rendering chosen for the "
@@ -441,4 +443,4 @@ CHECKS["C15"] = {
 }
 
 _W = "check built and passing before the latest repo fix commits; temporarily withdrawn while its Lean model is updated to the repaired code"
-PENDING.update({"C09": _W, "C16": _W})
+PENDING.update({})
